@@ -21,6 +21,7 @@ type Iter struct {
 	TV  int `json:"tv"`
 	Ret int `json:"ret"` // 0 ok, 1 throws RV, 2 returns a non-object, 3 no return method
 	RV  int `json:"rv"`
+	TM  int `json:"tm,omitempty"` // how step tj fails: 0 next() throws, 1 the result's value getter throws, 2 its done getter throws
 }
 
 // Stmt kinds: ev val unc block if loop forof lab try break cont ret throw
@@ -72,7 +73,7 @@ func one(ss []Stmt) *Stmt {
 }
 
 func jsIter(it *Iter) string {
-	return fmt.Sprintf("mkit(%d,%d,%d,%d,%d,%d)", it.ID, it.Len, it.TJ, it.TV, it.Ret, it.RV)
+	return fmt.Sprintf("mkit(%d,%d,%d,%d,%d,%d,%d)", it.ID, it.Len, it.TJ, it.TV, it.Ret, it.RV, it.TM)
 }
 
 func jsStmt(s *Stmt, sb *strings.Builder) {
@@ -229,10 +230,16 @@ func coqStmt(s *Stmt) string {
 // running a case in goja
 
 const prelude = `
-function mkit(id,len,tj,tv,ret,rv){
+function mkit(id,len,tj,tv,ret,rv,tm){
   var i=0; var o={};
   o[Symbol.iterator]=function(){ return o; };
-  o.next=function(){ lg(1,id); var k=i++; if (k===tj) throw tv; if (k>=len) return {done:true,value:undefined}; return {done:false,value:[k,k]}; };
+  o.next=function(){ lg(1,id); var k=i++;
+    if (k===tj) {
+      if (tm===1) return {done:false, get value(){ throw tv; }};
+      if (tm===2) return {get done(){ throw tv; }, value:[k,k]};
+      throw tv;
+    }
+    if (k>=len) return {done:true,value:undefined}; return {done:false,value:[k,k]}; };
   if (ret!==3) o.return=function(){ lg(2,id); if (ret===1) throw rv; if (ret===2) return 5; return {}; };
   return o;
 }
@@ -421,6 +428,10 @@ func builtinSource(c *Case) string {
 		return fmt.Sprintf("var M=function(){}; var k=0; var m=new Map(); var set0=Map.prototype.set; Map.prototype.set=function(a,b){ if (k++===%d) throw %d; return set0.call(this,a,b); }; try { new Map(%s); } finally { Map.prototype.set=set0; } undefined", sj, c.SV, it)
 	case "set":
 		return fmt.Sprintf("var k=0; var add0=Set.prototype.add; Set.prototype.add=function(a){ if (k++===%d) throw %d; return add0.call(this,a); }; try { new Set(%s); } finally { Set.prototype.add=add0; } undefined", sj, c.SV, it)
+	case "fromentries":
+		return fmt.Sprintf("Object.fromEntries(%s); undefined", it)
+	case "restdestruct":
+		return fmt.Sprintf("var [...r0] = %s; undefined", it)
 	case "promiseall":
 		return fmt.Sprintf("var k=0; var r0=Promise.resolve; Promise.resolve=function(v){ if (k++===%d) throw %d; return r0.call(this,v); }; var out; try { Promise.all(%s).then(function(){ out=[0] }, function(e){ out=[1,e] }); } finally { Promise.resolve=r0; } undefined", sj, c.SV, it)
 	case "yieldstar":
